@@ -73,6 +73,20 @@ SCHEMA_NAMES = ["S", "MY_SCHEMA", "Doc1", "SESSION_LOG"]
 CONTRACT_TYPES = ["SESSION_LOG", "T", '"My Type"', '"a\\"b"', "lower_case", '"été"', '"a\\"b\\\\c"', '"back\\\\slash"',
                   '"a\\nb"']
 
+# COMPATIBILITY characters (NFKC changes them, the reader's NFC does not: micro sign, superscript two, trade mark, ligature fi,
+# full-width letters, circled one, black-letter H, dz digraph; plus the kelvin / angstrom signs NFC itself replaces) in every
+# place where text becomes a GBNF literal: field names, schema names / META TYPE, CONST and ENUM values
+COMPAT_NAMES = ["\u00b5", "\ufb01eld", "\uff21\uff22", "m\u00b2", "\u01c5", "K\u212a", "\u212b"]
+SAN_NAMES += COMPAT_NAMES
+CONTRACT_ONLY_NAMES += ['"\u00b5 m"', '"\u2122"', '"\u2460 \ufb01"']
+CONST_POOL += ['"\u00b5m"', "\u00b5", '"m\u00b2"', '"\ufb01"', '"\uff21"', '"\u2460 \u210c \u2122"']
+ENUM_POOL += [["\u00b5m", "\u03bcm"], ["\uff21", "A"], ["\ufb01", "fi", "\u2460"]]
+API_FIELD_NAMES += ["\u00b5", "x\u00b2", "\ufb01", "\uff21", "\u2460", "\u212a"]
+API_SCHEMA_NAMES += ["\u00b5-schema", "\uff53\uff43\uff48\uff45\uff4d\uff41", "\ufb01le\u2122", "\u212b"]
+CONTRACT_TYPES += ['"\u00b5\u2122"', '"\uff21 \ufb01 \u2460"']
+TYPE_SOURCES += ['"\u00b5\u2122"', '"\uff21 \ufb01 \u2460"']
+ENVELOPE_NAMES += ["\u00b5", "\uff21\uff22"]
+
 # clause bit -> listed finding.  Bits 3 (field name) and 4 (schema name) have NO finding: since repo 481c8b3 names are
 # escaped inside literals and since b75eb16 the header comment shows the schema name on one line; what is left of both
 # clauses is a NUL in a name, which no reader produces.  Quote / backslash / line break in a name excuse nothing.
